@@ -96,3 +96,13 @@ Fixpoint b_combine_loop (p : bitfield) (sigs : list barg) : cres bitfield :=
 
 Definition b_combine (sigs : list barg) : cres bitfield :=
   if (length sigs <? 2)%nat then CErrMultiple else b_combine_loop empty_bf sigs.
+
+(* ---- NewMultiSorted: slices.SortFunc by signer id (equal ids are indistinguishable in the
+   signer list, so stability does not matter); NewMulti keeps the given order ---- *)
+Fixpoint m_insert (x : N) (l : multi) : multi :=
+  match l with
+  | [] => [x]
+  | y :: r => if x <=? y then x :: l else y :: m_insert x r
+  end.
+Definition m_new_sorted (l : multi) : multi := fold_right m_insert [] l.
+Definition m_new (l : multi) : multi := l.
